@@ -383,6 +383,7 @@ theorem undelFileLink_write_set (c : Cfg) (v pSect : Nat) (entry : Blk) (data ex
     rintro P r s' ⟨W, hW, hn, hL⟩
     exact ⟨W, hW, by rw [hn]; exact hL⟩
   unfold undelFileLink
+  apply Post.bind; apply Post.getVolCfg
   apply Post.bind; apply setBlockUsed_spec
   intro s1 _ _ _ _ hd1 ht1 _ _
   have h1 : Still s.disk (writesOf s.trace) s1 := ⟨hd1, by rw [ht1]⟩
@@ -399,6 +400,17 @@ theorem undelFileLink_write_set (c : Cfg) (v pSect : Nat) (entry : Blk) (data ex
     · rw [if_pos hshort]
       refine Post.mono _ _ _ _ _ (giveBack_exitW c v _ _ _ rcError s s3 [] (by rw [h3.2]; rfl) _ UndelLinkW.nothing) (conv _)
     · rw [if_neg hshort]
+      apply Post.bind
+      refine Post.mono _ _ _ (fun (_ : Bool) s' => s3 = s') _ ?_ ?_
+      · split
+        · apply hasFreeBlocks_pure; intro b; rfl
+        · exact Post.pure _ _ _ _ rfl
+      intro room s3' hs3
+      subst hs3
+      by_cases hroom : (!room) = true
+      · rw [if_pos hroom]
+        refine Post.mono _ _ _ _ _ (giveBack_exitW c v _ _ _ rcVolFull s _ [] (by rw [h3.2]; rfl) _ UndelLinkW.nothing) (conv _)
+      rw [if_neg hroom]
       apply Post.bind; apply readEntryBlock_full
       intro rc parent s4 _ _ hd4 hw4 hdata
       dsimp only
